@@ -29,6 +29,8 @@ pub struct MRule {
     pub default: bool,
     /// identity of the actions vector (the harness maps tags to concrete actions)
     pub actions: String,
+    /// the rest of the rule's payload: pattern (content rules) / conditions (override, underride)
+    pub extra: String,
 }
 
 #[derive(Clone, PartialEq, Eq, Debug, Default)]
@@ -74,7 +76,7 @@ impl Model {
         }
     }
 
-    pub fn insert(&mut self, k: Kind, id: &str, actions: &str, after: Option<&str>, before: Option<&str>) -> Expect {
+    pub fn insert(&mut self, k: Kind, id: &str, actions: &str, extra: &str, after: Option<&str>, before: Option<&str>) -> Expect {
         if id.starts_with('.') {
             return Expect::MustErr("server-default rule id cannot be created");
         }
@@ -115,6 +117,7 @@ impl Model {
             enabled: prev.as_ref().map(|p| p.enabled).unwrap_or(true),
             default: false,
             actions: actions.to_string(),
+            extra: extra.to_string(),
         };
         let mut unjudged = false;
         let at = match (ia, ib) {
